@@ -154,7 +154,10 @@ func WithBytes(seq Sequence, p []byte) Sequence {
 }
 
 func insert(p []byte, pos int, q []byte) []byte {
-	return append(p[:pos], append(q, p[pos:]...)...)
+	r := make([]byte, 0, len(p)+len(q))
+	r = append(r, p[:pos]...)
+	r = append(r, q...)
+	return append(r, p[pos:]...)
 }
 
 // Insert a sequence at the given index. For any feature whose location covers
